@@ -805,7 +805,18 @@ func (ca ConstantAttribute) String() string {
 	if ca.SingleQuote {
 		quote = `'`
 	}
-	return ca.Name + `=` + quote + ca.Value + quote
+	return ca.Name + `=` + quote + escapeAttributeValue(ca.Value, quote) + quote
+}
+
+// escapeAttributeValue escapes a constant attribute value for writing it between the given
+// quotes. The parser stores the value unescaped, so writing it out verbatim would turn
+// &amp;lt; into &lt; and let a &quot; end the attribute.
+func escapeAttributeValue(value, quote string) string {
+	value = strings.ReplaceAll(value, "&", "&amp;")
+	if quote == `'` {
+		return strings.ReplaceAll(value, "'", "&#39;")
+	}
+	return strings.ReplaceAll(value, `"`, "&#34;")
 }
 
 func (ca ConstantAttribute) Write(w io.Writer, indent int) error {
